@@ -249,7 +249,7 @@ fn failed_commit_case(h: &History, path: &std::path::Path, vio: &crate::vio::Vio
     let target = &h.txs[last];
     // count the commit's writes
     let cfg = ExecCfg::default();
-    let n_writes = {
+    let (n_writes, n_mmaps) = {
         let db = exec::open_db(path, h).map_err(|e| e.to_string())?;
         let mut run = Run::new(&cfg, h.pagesize);
         let mut m = pre.clone();
@@ -259,14 +259,21 @@ fn failed_commit_case(h: &History, path: &std::path::Path, vio: &crate::vio::Vio
         if run.out.aborted {
             return Err("target transaction disagreed with the model".into());
         }
-        s.writes
+        (s.writes, s.mmaps)
     };
     let mut injected = 0;
     // fail the first, a middle and the last data write, and the header write, with nothing written
     let mut idxs: Vec<i64> = vec![0, (n_writes as i64) / 2, n_writes as i64 - 2, n_writes as i64 - 1];
     idxs.sort();
     idxs.dedup();
-    for nth in idxs.into_iter().filter(|i| *i >= 0) {
+    // ... and, when the commit extends the file, the mapping of the extended file (the extension itself has
+    // happened by then, the header has not been written: prior state, nothing of the transaction visible)
+    let mut faults: Vec<(i32, i64, i32, String)> = idxs.into_iter().filter(|i| *i >= 0).map(|i| (crate::vio::CLASS_WRITE, i, libc::EIO, format!("write #{} (nothing written)", i))).collect();
+    for i in 0..n_mmaps as i64 {
+        faults.push((crate::vio::CLASS_MMAP, i, libc::ENOMEM, format!("mmap #{} (after the file was extended)", i)));
+    }
+    for (class, nth, errno, what) in faults {
+        let nth_s = what.clone();
         std::fs::write(path, &image).map_err(|e| e.to_string())?;
         let db = exec::open_db(path, h).map_err(|e| e.to_string())?;
         let before = db.verif_state();
@@ -274,7 +281,7 @@ fn failed_commit_case(h: &History, path: &std::path::Path, vio: &crate::vio::Vio
         run.tolerate_commit_err = true;
         let mut m = pre.clone();
         vio.reset();
-        vio.arm(crate::vio::CLASS_WRITE, nth, libc::EIO, crate::vio::KIND_FAIL);
+        vio.arm(class, nth, errno, crate::vio::KIND_FAIL);
         let r = util::catch(|| exec::exec_tx(&mut run, &db, path, target, 0, &mut m));
         let fired = vio.stats().fired > 0;
         vio.reset();
@@ -285,7 +292,7 @@ fn failed_commit_case(h: &History, path: &std::path::Path, vio: &crate::vio::Vio
         // the write failed with nothing written, so the header never reached the file: prior state
         let tx = db.tx(false).map_err(|e| e.to_string())?;
         if let Some(d) = exec::verify_tx_against(&tx, &pre, false) {
-            viol.push((format!("failed-commit:state-changed:{}", exec::classify_diff(&d)), format!("after a commit that failed at write #{} (nothing written) the handle shows: {}", nth, d)));
+            viol.push((format!("failed-commit:state-changed:{}", exec::classify_diff(&d)), format!("after a commit that failed at {} the handle shows: {}", nth_s, d)));
             continue;
         }
         drop(tx);
@@ -295,7 +302,7 @@ fn failed_commit_case(h: &History, path: &std::path::Path, vio: &crate::vio::Vio
         if after != before {
             viol.push((
                 "failed-commit:shared-state-changed".into(),
-                format!("a commit that failed at write #{} (nothing written, prior state still current) changed the handle's shared bookkeeping: {:?} -> {:?}", nth, before, after),
+                format!("a commit that failed at {} (prior state still current) changed the handle's shared bookkeeping: {:?} -> {:?}", nth_s, before, after),
             ));
             continue;
         }
@@ -306,10 +313,20 @@ fn failed_commit_case(h: &History, path: &std::path::Path, vio: &crate::vio::Vio
         let r = util::catch(|| {
             exec::exec_tx(&mut run2, &db, path, target, 1, &mut m2);
         });
+        // everything the retried transaction wrote must be readable through the same handle
+        let r = r.and_then(|_| {
+            util::catch(|| {
+                if let Ok(tx) = db.tx(false) {
+                    if let Some(d) = exec::verify_tx_against(&tx, &m2, true) {
+                        run2.out.violations.push(exec::Violation { sig: format!("read-back:{}", exec::classify_diff(&d)), detail: d, class: exec::Class::PostCommit, tx: 1, op: None });
+                    }
+                }
+            })
+        });
         if r.is_err() {
-            viol.push(("failed-commit:retry-panics".into(), format!("retrying the transaction after its commit failed at write #{} panicked", nth)));
+            viol.push(("failed-commit:retry-panics".into(), format!("retrying the transaction after its commit failed at {} panicked", nth_s)));
         } else if let Some(v) = run2.out.violations.first() {
-            viol.push((format!("failed-commit:retry:{}", v.sig), format!("retrying the transaction after its commit failed at write #{}: {}", nth, v.detail)));
+            viol.push((format!("failed-commit:retry:{}", v.sig), format!("retrying the transaction after its commit failed at {}: {}", nth_s, v.detail)));
         }
     }
     Ok(injected)
@@ -535,7 +552,7 @@ pub fn run(ctx: &Ctx) -> Shard {
         let doc: serde_json::Value = serde_json::from_slice(&std::fs::read(rp).expect("read replay")).expect("parse");
         vec![serde_json::from_value(doc["case"]["history"].clone()).expect("history")]
     } else {
-        let n = ctx.scale(if ctx.thorough() { 3000 } else { 200 });
+        let n = ctx.scale(if ctx.thorough() { 3000 } else { 300 });
         (0..n)
             .map(|i| {
                 let profile = (i % gen::N_PROFILES as u64) as u8;
@@ -649,6 +666,30 @@ pub fn run(ctx: &Ctx) -> Shard {
                     shard.violation(ctx, &sig, &detail, &serde_json::json!({"kind": "history", "history": h, "part": "failed-commit"}));
                 }
                 let _ = std::fs::remove_file(&p4);
+            }
+        }
+        // (h) the same for a commit that EXTENDS the file (a directed history: a minimum-size file, two small commits,
+        // then a transaction with a value of one to nine MiB), once per worker: also the mapping of the extended file fails
+        if let Some(vio) = &vio {
+            if i == 0 && ctx.replay.is_none() {
+                for (gi, big) in [1usize << 20, (9 << 20) + 4321].iter().enumerate() {
+                    let small = |n: u64| TxScript { ops: vec![Op::TxGetOrCreate { k: K::lit(b"g"), how: How::Slice }, Op::Put { h: 0, k: K::lit(format!("s{}", n).as_bytes()), v: V { tag: 7000 + n, len: 200 }, how: How::Slice, vhow: How::Slice }], end: End::Commit, reopen: false };
+                    let grow = TxScript { ops: vec![Op::TxGetOrCreate { k: K::lit(b"g"), how: How::Slice }, Op::Put { h: 0, k: K::lit(b"big"), v: V { tag: 7100 + gi as u64, len: *big }, how: How::Slice, vhow: How::Slice }, Op::Put { h: 0, k: K::lit(b"s0"), v: V { tag: 7200, len: 100 }, how: How::Slice, vhow: How::Slice }], end: End::Commit, reopen: false };
+                    let gh = History { pagesize: if gi == 0 { 1024 } else { 4096 }, num_pages: 4 + 4 * gi, strict: false, populate: false, txs: vec![small(0), small(1), grow], origin: "directed-growing".into() };
+                    let p6 = scratch.fresh("h");
+                    let mut v: Vec<(String, String)> = Vec::new();
+                    match failed_commit_case(&gh, &p6, vio, &mut v) {
+                        Ok(n) => {
+                            failed_commits += n;
+                            shard.count("failed_commits_that_had_extended_the_file(write_and_mmap_faults)", n);
+                        }
+                        Err(e) => shard.inconclusive_or_workload(ctx, "", &e, &serde_json::json!({"kind": "history", "history": gh})),
+                    }
+                    for (sig, detail) in v {
+                        shard.violation(ctx, &sig, &detail, &serde_json::json!({"kind": "history", "history": gh, "part": "failed-commit"}));
+                    }
+                    let _ = std::fs::remove_file(&p6);
+                }
             }
         }
         // (f)+(g) error-only transactions and refused strict commits, on a quarter of the histories
